@@ -1,5 +1,6 @@
 //@ item: float/src/convert.rs :: impl<R: Round> Context<R>#1 :: convert_to_binary_once
 fn convert_to_binary_once<const B: Word>(&self, repr: Repr<B>) -> Rounded<Repr<2>>
+/*@ #[keep_local_items] @*/
 /*@
     requires
         // finite operand, precision > 0 (the `debug_assert!`; both callers establish it), operand in normal form (Repr
@@ -44,12 +45,17 @@ fn convert_to_binary_once<const B: Word>(&self, repr: Repr<B>) -> Rounded<Repr<2
                 lemma_fp_pow_bits(B as int, ea, W);
                 lemma_fp_abs_mul(sig, pw);
                 assert(iabs(N) >= 1) by (nonlinear_arith) requires iabs(N) == (if e >= 0 { iabs(sig) * pw } else { iabs(sig) }), iabs(sig) >= 1, pw >= 1;
+                assert((N < 0) == (sig < 0)) by (nonlinear_arith) requires N == (if e >= 0 { sig * pw } else { sig }), pw >= 1;
             } @*/
         if log2_lb > FAR as f32 || log2_ub < -FAR as f32 {
             /*@ proof { lemma_fp_far(log2_lb, log2_ub, iabs(N), D); } @*/
-            let exponent = if log2_lb > 0. { FAR } else { -FAR };
+            let exponent = if log2_lb > 0. { /*@ proof { ax_fp_gt_zero(log2_lb, 0f32, true); } @*/ FAR } else { /*@ proof { ax_fp_gt_zero(log2_lb, 0f32, false); } @*/ -FAR };
             let significand = sign * IBig::ONE;
             /*@ proof {
+                assert(significand.v() == (if N < 0 { -1int } else { 1int }));
+                assert(exponent == 4096 || exponent == -4096);
+                assert(exponent == 4096 ==> iabs(N) > ipow(2, 4096) * D);
+                assert(exponent == -4096 ==> iabs(N) * ipow(2, 4096) < D);
                 assert(fp_far(N, D, Mid { s: significand.v(), e: exponent as int, adj: Some(Rounding::NoOp) }));
                 lemma_fp_blen_le(significand.v(), p as nat);
             } @*/
@@ -73,12 +79,18 @@ fn convert_to_binary_once<const B: Word>(&self, repr: Repr<B>) -> Rounded<Repr<2
                 lemma_ipow_add(2, W, W);
                 let (as_, hw) = (iabs(sig), ipow(2, W));
                 assert(as_ * pw < hw * hw) by (nonlinear_arith) requires as_ < hw, 1 <= pw <= hw, as_ >= 0;
+                assert(hw * hw >= hw) by (nonlinear_arith) requires hw >= 1;
+                assert(num0 < ipow(2, W + W));
                 lemma_fp_ipow2_succ(W);
                 lemma_fp_blen_le(D, W + 1);
             } @*/
 
         // the quotient gets at least two bits more than the precision
         let shift = (self.precision + 2 + den.bit_len()).saturating_sub(num.bit_len());
+        /*@ proof {
+            lemma_ipow_pos(2, shift as nat);
+            assert(num0 * ipow(2, shift as nat) >= 0) by (nonlinear_arith) requires num0 >= 1, ipow(2, shift as nat) >= 1;
+        } @*/
         num <<= shift;
         let (q, r) = num.div_rem(&den);
         /*@ proof {
@@ -90,6 +102,9 @@ fn convert_to_binary_once<const B: Word>(&self, repr: Repr<B>) -> Rounded<Repr<2
             proof {
                 lemma_fp_ipow01(2);
                 assert(q.v() * 2 == 2 * q.v());
+                assert(num0 < ipow(2, W + W));
+                assert(q.v() >= 0 && r.v() >= 0);
+                assert(iabs(S) <= 2 * q.v() + 1);
                 lemma_fp_near_room(num0, D, shift as nat, W + W, q.v(), r.v(), S);
                 assert(S != 0);
                 // whatever normalised representation `Repr::new` returns: room for repr_round, and the result is the contract
